@@ -877,6 +877,7 @@ def finding_flags(info):
         "F-SG3": info.get("engine", "") in ("cr32", "cr32s") and bits_of(info) > 19 and up and q["sb"] < 1,
         "F-SG5": bits_of(info) == 16 and rolloff_of(info) == 1 and "poly1" in kinds,
         "F-SG6": q["sb"] > 1.1 and bits_of(info) >= 26 and "half" in kinds,
+        "F-SG7": rolloff_of(info) == 3 and any(k.startswith("poly") for k in kinds) and (q["sb"] != 1 or q["pb"] > 0.6631),
     }
 
 
@@ -886,6 +887,7 @@ FINDING_SYMPTOM = {
     "F-SG1": {"gain": 2.0},                                              # |gain error| in (0.01, 0.02] dB
     "F-SG3": {"stop": 1.13},                                             # at most 1 dB above 2^-bits
     "F-SG5": {"res": 1.5},                                               # fit residual <= 1.5 x 2^(1-bits)
+    "F-SG7": {"rowsum": 2.0},                                            # DC / row sums <= 2 x 2^(1-bits) (mapped: 1.27; plain recipe 0.80)
     "F-SG6": {"stop": 8.0},                                              # at most 18 dB above 2^-bits (mapped: 3.63 at 33 bits, stopband_begin 1.14)
 }
 ACTIVE = set()           # ids of the findings listed as `known` for the running property (set_active)
